@@ -152,7 +152,7 @@ static std::vector<char> random_pattern(int n, int fam, Rng &r, std::string &nam
     return p;
 }
 static void sub_skyline_random() {
-    long N = vf::tier(400, 6000);
+    long N = vf::tier(1500, 30000);
     for (long idx = 0; idx < N; ++idx) {
         if (!sel("skyline_random", idx)) continue;
         Rng r(vf::case_seed("skyline_random", idx));
@@ -237,7 +237,7 @@ static void sub_skyline_exact() {
         Case c("skyline_exact", idx, J().s("space", "4x4 patterns").n("mask_from", m0)); Rng r(vf::case_seed("skyline_exact", idx));
         for (uint64_t m = m0; m < m0 + BATCH; ++m) for (int rep = 0; rep < 2; ++rep) { IntSys S = int_system(4, m, true, 0, r, false); exact_case(c, S, r, true); c.nontrivial(); }
     }
-    long N = vf::tier(200, 3000);
+    long N = vf::tier(800, 15000);
     for (long k = 0; k < N; ++k, ++idx) {
         if (!sel("skyline_exact", idx)) continue;
         Rng r(vf::case_seed("skyline_exact", idx)); int n = (int)r.range(1, 6); double d = r.pick(std::vector<double>{0.15, 0.35, 0.7});
@@ -245,7 +245,7 @@ static void sub_skyline_exact() {
     }
 }
 static void sub_skyline_dyadic() {
-    long N = vf::tier(300, 4000);
+    long N = vf::tier(1000, 20000);
     for (long idx = 0; idx < N; ++idx) {
         if (!sel("skyline_dyadic", idx)) continue;
         Rng r(vf::case_seed("skyline_dyadic", idx)); int n = (int)r.range(1, 7); double d = r.pick(std::vector<double>{0.1, 0.25, 0.5});
@@ -318,7 +318,7 @@ template <int N> void check_inverse_static(Case &c, const LZ &A) {
     c.check_le((double)(w / (norm_inf(A) * norm_inf(X))), inv_bound(N, false) + N * 2.3e-16, "inverse:operator-product:static_matrix", "a * inverse(a) computed with static_matrix operator* is not the identity");
 }
 static void sub_inverse() {
-    long N = vf::tier(600, 8000);
+    long N = vf::tier(2400, 40000);
     for (long idx = 0; idx < N; ++idx) {
         if (!sel("inverse", idx)) continue;
         Rng r(vf::case_seed("inverse", idx)); int n = 1 + idx % 8, kind = (idx / 8) % 7, api = (idx / 56) % 3; std::string kname;
@@ -455,7 +455,7 @@ template <class T, int N, int K, int M> void sm_identities(Case &c, Rng &r) {
     { static_matrix<T, N, K> cc = math::constant<static_matrix<T, N, K>>(3); bool ok = true; for (int i = 0; i < N * K; ++i) if (!(cc(i) == T(3))) ok = false; c.check(ok, "static_matrix:constant", "constant() misbehaves (" + tag + ")"); }
 }
 static void sub_static_matrix() {
-    long N = vf::tier(200, 3000);
+    long N = vf::tier(600, 10000);
     for (long idx = 0; idx < N; ++idx) {
         if (!sel("static_matrix", idx)) continue;
         Rng r(vf::case_seed("static_matrix", idx)); Case c("static_matrix", idx, J().n("rep", idx));
@@ -496,7 +496,7 @@ static void sub_cm_exhaustive() {
     vf::obs_set("cm_exhaustive_space", cmstride > 1 ? "all directed patterns on 1..4 vertices, every " + std::to_string(cmstride) + "th batch of 2048 patterns on 5 vertices; with and without diagonal; forward and reverse" : "all directed patterns on 1..5 vertices, with and without diagonal, forward and reverse");
 }
 static void sub_cm_random() {
-    long N = vf::tier(300, 5000);
+    long N = vf::tier(1000, 20000);
     for (long idx = 0; idx < N; ++idx) {
         if (!sel("cm_random", idx)) continue;
         Rng r(vf::case_seed("cm_random", idx)); size_t n = r.coin(0.2) ? r.range(1, 8) : r.range(1, 300); int ncomp = (int)r.range(1, 6); double deg = r.pick(std::vector<double>{0.5, 1.5, 3, 8}); bool sym = r.coin(0.4); double pdiag = r.pick(std::vector<double>{0.0, 0.7, 1.0});
@@ -517,7 +517,7 @@ static void sub_cm_random() {
 // Eigen::SparseLU is GEPP with a column pre-ordering: backward error <= n^2 gamma_{3n} rho ||A||_inf (Higham Thm 9.5), rho <= 2^(n-1).
 //---------------------------------------------------------------------------
 static void sub_eigen_solver() {
-    long N = vf::tier(60, 600);
+    long N = vf::tier(200, 3000);
     for (long idx = 0; idx < N; ++idx) {
         if (!sel("eigen_solver", idx)) continue;
         Rng r(vf::case_seed("eigen_solver", idx)); int n = (int)r.range(1, 16); int fam = (int)r.range(0, 7); std::string fname; std::vector<char> p = random_pattern(n, fam, r, fname); LZ A = gen_dense<double>(n, p, (int)r.range(0, 1), r);
